@@ -40,13 +40,13 @@ def _comment(lang, rng, uid):
 
 
 class _Project:
-    def __init__(self, rng, case):
+    def __init__(self, rng, case, w=None, min_occ=None):
         self.rng = rng
         self.uid = case * 1000
         self.lang = rng.choice(["python", "python", "typescript", "javascript"])
         self.ext = {"python": ".py", "typescript": ".ts", "javascript": ".js"}[self.lang]
-        self.w = rng.choice([3, 3, 4])
-        self.min_occ = rng.choice([2, 2, 2, 3])
+        self.w = w or rng.choice([3, 3, 4])
+        self.min_occ = min_occ or rng.choice([2, 2, 2, 3])
         self.files = {}      # name -> list of raw lines
         self.places = []     # (run id, file name, first line, last line)  1-based original line numbers
         self.run_places = {}
@@ -75,6 +75,17 @@ class _Project:
             lines.append(f"import {{ helper{u} }} from './helper{u}';")
         if r.random() < 0.4:
             lines.append("")  # sometimes a blank line separates the header from the code, sometimes NOT
+
+    def odd_separator_line(self, lines):
+        """A line holding a character that str.splitlines() / "smart" line splitting treats as a line boundary although
+        it does not end a physical line (form feed page break, VT, FS/GS/RS, NEL, LS, PS). Only in comments or as a blank
+        page-break line, so the program is unchanged; every line number below must still be the physical one."""
+        r = self.rng
+        u = self.fresh()
+        if self.lang == "python":
+            lines.append(r.choice(["\x0c", f"# section {u} \x0c next", f"# nel\x85 ls\u2028 ps\u2029 {u}", f"# vt\x0b fs\x1c gs\x1d rs\x1e {u}"]))
+        else:
+            lines.append(r.choice([f"// section {u} \x0c next", f"// vt\x0b page {u}"]))
 
     def open_function(self, lines):
         u = self.fresh()
@@ -138,6 +149,8 @@ class _Project:
         for name in names:
             lines = []
             self.header(lines)
+            if r.random() < 0.25:
+                self.odd_separator_line(lines)
             self.open_function(lines)
             self.filler(lines, r.randrange(1, 4))
             for rid, run, periodic, where in runs:
@@ -224,32 +237,47 @@ def _check_project(proj, violations, root):
 
 
 def _run_cases(repo, seed, cases):
+    """Cases come in groups that share ONE long-lived Linter object and one directory (library / watch-mode use): the
+    files of the previous project are removed, the next project is written and linted with the SAME object. Every run
+    is judged against its own project only -- a run must not see anything an earlier run stored."""
     from pyvc import native as _native
     os.environ.setdefault("VERIF_REPO", repo)
     _native._ensure_repo_on_path()  # `src` must be the tree under verification, not an editable install of another one
     from src import Linter
     if os.path.realpath(os.path.dirname(sys.modules["src"].__file__)) != os.path.realpath(os.path.join(repo, "src")):
         raise RuntimeError(f"src was imported from {sys.modules['src'].__file__}, not from {repo}")
+    from pathlib import Path
     rng = random.Random(seed * 7919 + 3)
-    for case in range(cases):
-        proj = _Project(rng, case + 1)
-        proj.build()
+    case = 0
+    while case < cases:
+        group = min(rng.choice([1, 1, 3]), cases - case)
+        first = _Project(rng, case + 1)
         with tempfile.TemporaryDirectory() as d:
-            for name, lines in proj.files.items():
-                path = os.path.join(d, name)
-                os.makedirs(os.path.dirname(path), exist_ok=True)
-                with open(path, "w") as fh:
-                    fh.write("\n".join(lines) + "\n")
             cfg = os.path.join(d, ".thailint.yaml")
             with open(cfg, "w") as fh:
-                fh.write(f"dry:\n  enabled: true\n  min_duplicate_lines: {proj.w}\n  min_occurrences: {proj.min_occ}\n  ignore: []\n")
-            from pathlib import Path
+                fh.write(f"dry:\n  enabled: true\n  min_duplicate_lines: {first.w}\n  min_occurrences: {first.min_occ}\n  ignore: []\n")
             linter = Linter(config_file=Path(cfg), project_root=Path(d))
-            violations = [v for v in linter.lint(Path(d), rules=["dry.duplicate-code"]) if v.rule_id == "dry.duplicate-code"]
-            bad = _check_project(proj, violations, d)
-            if bad:
-                listing = {n: ls for n, ls in proj.files.items()}
-                return (f"case {case} ({proj.lang}, min_duplicate_lines {proj.w}, min_occurrences {proj.min_occ}): {bad}", listing), case + 1
+            history = []
+            for g in range(group):
+                proj = first if g == 0 else _Project(rng, case + 1, w=first.w, min_occ=first.min_occ)
+                proj.build()
+                for root, _dirs, names in os.walk(d):           # the previous project's files are gone
+                    for n in names:
+                        if n != ".thailint.yaml":
+                            os.unlink(os.path.join(root, n))
+                for name, lines in proj.files.items():
+                    path = os.path.join(d, name)
+                    os.makedirs(os.path.dirname(path), exist_ok=True)
+                    with open(path, "w", newline="") as fh:
+                        fh.write("\n".join(lines) + "\n")
+                violations = [v for v in linter.lint(Path(d), rules=["dry.duplicate-code"]) if v.rule_id == "dry.duplicate-code"]
+                bad = _check_project(proj, violations, d)
+                history.append({n: ls for n, ls in proj.files.items()})
+                case += 1
+                if bad:
+                    where = f"run {g + 1} of {group} on one reused Linter object" if group > 1 else "fresh Linter object"
+                    return (f"case {case - 1} ({proj.lang}, min_duplicate_lines {proj.w}, min_occurrences {proj.min_occ}, {where}): {bad}",
+                            {"runs_on_this_linter": history}), case
     return None, cases
 
 
